@@ -6,6 +6,8 @@ Decided (E6 eigen typestate on tensor/sptensor/ktensor/ttensor.nvecs, both solve
              eigenvalues, truncated to r COLUMNS (or asked for exactly r from the iterative solver)
   EIG-sign   under the sign flag, the pivot is argmax of |v| over axis 0 (per column), the test is
              `v[pivot_i, i] < 0`, and the flip negates column i
+  EIG-unf    in ttensor.nvecs all mode-n unfoldings (dense to_tenmat(cdims=[n]) and sparse to_sptenmat([n], 't')) list the
+             remaining modes in the same (ascending) order, so that their product is the mode-n Gram matrix
   EIG-sib    the four implementations choose the iterative branch under the same condition
              (r < size - 1) — sibling agreement
 Not decided: that the Gram matrix is the mode-n Gram matrix; subspace equality across
@@ -166,6 +168,47 @@ def branch_cond(prog: Program, short: str):
     return None, None
 
 
+def unfold_conventions(prog: Program, res: Result) -> None:
+    """All mode-n unfoldings that enter one Gram product list the remaining modes in the same order."""
+    fi = prog.func("ttensor.ttensor.nvecs")
+    sites = []
+    for c in ast.walk(fi.node):
+        if isinstance(c, ast.Call) and isinstance(c.func, ast.Attribute) and c.func.attr in ("to_tenmat", "to_sptenmat"):
+            conv = None
+            if c.func.attr == "to_tenmat":
+                # to_tenmat(cdims=[n]) : rows = the remaining modes ascending, column = n  ("t" layout)
+                if kwarg(c, "cdims") is not None and kwarg(c, "rdims") is None and kwarg(c, "cdims_cyclic") is None:
+                    conv = "n-as-column, others ascending"
+                elif kwarg(c, "rdims") is not None or c.args:
+                    cyc = kwarg(c, "cdims_cyclic")
+                    conv = f"n-as-row, others {const(cyc) if cyc is not None else 'ascending'}"
+            else:
+                cyc = kwarg(c, "cdims_cyclic") or (c.args[2] if len(c.args) > 2 else None)
+                cv = const(cyc) if cyc is not None else None
+                if cv == "t":
+                    conv = "n-as-column, others ascending"
+                elif cv in ("fc", "bc"):
+                    conv = f"n-as-row, others {cv}"
+                elif cyc is None:
+                    conv = "n-as-row, others ascending"
+            # a trailing .transpose() after .double() flips row/column roles but keeps the order of the others
+            sites.append((c, conv))
+    desc = "every mode-n unfolding entering the Gram product orders the remaining modes the same way"
+    if len(sites) < 2:
+        res.undecided("EIG-unf", fi.short, desc, prog.loc(fi), f"{len(sites)} unfolding call(s) found")
+        return
+    orders = {(cv.split("others ")[1] if cv else None) for _c, cv in sites}
+    layouts = {(cv.split(",")[0] if cv else None) for _c, cv in sites}
+    if None in orders:
+        res.undecided("EIG-unf", fi.short, desc, prog.loc(fi, sites[0][0]), "an unfolding convention was not recognised")
+    elif len(orders) == 1 and len(layouts) == 1:
+        res.ok("EIG-unf", fi.short, desc, prog.loc(fi, sites[0][0]), f"{len(sites)} sites: {sites[0][1]}")
+    else:
+        res.bad("EIG-unf", fi.short, desc, prog.loc(fi, sites[0][0]),
+                "the unfoldings disagree: " + "; ".join(sorted({cv for _c, cv in sites})) +
+                " — the product of differently ordered unfoldings is not the mode-n Gram matrix (visible for a middle mode of a tensor with >= 3 modes)")
+
+
 def check(prog: Program, res: Result, tier: str) -> None:
     res.explanation = __doc__.split("\n\n", 1)[1]
     res.assumptions = [
@@ -173,7 +216,8 @@ def check(prog: Program, res: Result, tier: str) -> None:
         "eigsh unspecified order, k vectors); eig/eigs are general solvers with complex results",
         "eigsh(which='LM', default) selects largest-magnitude eigenvalues",
     ]
-    res.floors = {"EIG-ret": 8, "EIG-sign": 4, "EIG-sib": 4}
+    res.floors = {"EIG-ret": 8, "EIG-sign": 4, "EIG-sib": 4, "EIG-unf": 1}
+    unfold_conventions(prog, res)
     for short in NVECS:
         eig_ret(prog, res, short)
         sign_rule(prog, res, short)
